@@ -364,8 +364,9 @@ theorem uint_ok (h : Inv b f lr) : Wp E uint lr (UintPost b f lr) := by
 
 theorem setMark_ok (h : Inv b f lr) :
     Wp E setMark lr (fun _ lr1 => Inv b f lr1 ∧ MarkOK lr1 ∧ lr1.v.pos = lr.v.pos ∧
-      lr1.v.rest = lr.v.rest ∧ lr1.line = lr.line ∧ lr1.lineStart = lr.lineStart) := by
-  refine Wp.setMark ⟨?_, ⟨h.online.le, Nat.le_refl _⟩, rfl, rfl, rfl, rfl⟩
+      lr1.v.rest = lr.v.rest ∧ lr1.line = lr.line ∧ lr1.lineStart = lr.lineStart ∧
+      lr1.v.mark = lr.v.pos) := by
+  refine Wp.setMark ⟨?_, ⟨h.online.le, Nat.le_refl _⟩, rfl, rfl, rfl, rfl, rfl⟩
   exact { size := h.size, rest := h.rest, pos_le := h.pos_le, fault := h.fault, online := h.online,
           finv := h.finv }
 
@@ -387,7 +388,7 @@ theorem positiveInt_ok (h : Inv b f lr) : Wp (Err b f) positiveInt lr (fun r lr1
   · rename_i hn48
     have h48 : lr.v.rest[0]? ≠ some 48 := by rw [← ha]; simpa using hn48
     refine Wp.bind' (setMark_ok (h.ext e1)) ?_
-    intro _ lr2 ⟨i2, m2, p2, r2, _, _⟩
+    intro _ lr2 ⟨i2, m2, p2, r2, _, _, _⟩
     refine Wp.bind' (uint_ok i2) ?_
     intro r lr3 ⟨i3, f3, s3⟩
     have m3 := m2.fwd f3
@@ -409,7 +410,7 @@ theorem nonnegativeInt_ok (h : Inv b f lr) : Wp (Err b f) nonnegativeInt lr (fun
     LinePost b f lr r lr1 ∧ ∀ v, r = some v → v < 2 ^ 64) := by
   unfold nonnegativeInt
   refine Wp.bind' (setMark_ok h) ?_
-  intro _ lr2 ⟨i2, m2, p2, r2, _, _⟩
+  intro _ lr2 ⟨i2, m2, p2, r2, _, _, _⟩
   refine Wp.bind' (uint_ok i2) ?_
   intro r lr3 ⟨i3, f3, s3⟩
   have m3 := m2.fwd f3
@@ -421,6 +422,56 @@ theorem nonnegativeInt_ok (h : Inv b f lr) : Wp (Err b f) nonnegativeInt lr (fun
     obtain ⟨s1, s2, _⟩ := s3 v rfl
     exact Wp.pure ⟨⟨i3, by omega, fun _ => by omega⟩, fun w hw => by
       simp only [Option.some.injEq] at hw; subst hw; exact s2⟩
+
+/-- Error predicate: the parked I/O error, or a syntax error at the cursor of the state `lr`. -/
+def AtCursor (lr : LR) (e : PErr) (_ : LR) : Prop :=
+  e = .io ∨ e = .syn lr.line (lr.v.pos - lr.lineStart + 1)
+
+theorem exceedsCount_at {α : Type} {Q : α → LR → Prop} {lr2 : LR} (hl : lr2.line = lr.line)
+    (hs : lr2.lineStart = lr.lineStart) (hm : lr2.v.mark = lr.v.pos) (hle : lr.lineStart ≤ lr.v.pos) :
+    Wp (AtCursor lr) (exceedsCount : PM α) lr2 Q := by
+  unfold exceedsCount
+  refine Wp.bind (Wp.mark ?_)
+  refine Wp.giveUpAt (fun _ => Or.inl rfl) (fun _ => ⟨by rw [hs, hm]; exact hle, Or.inr ?_⟩)
+  rw [hl, hs, hm]
+
+/-- **The only error of `positive_int` is at the first byte of the number** (F11: the mark is set
+there), or the parked I/O error. -/
+theorem positiveInt_err_at_start (h : Inv b f lr) : Wp (AtCursor lr) positiveInt lr (fun _ _ => True) := by
+  unfold positiveInt
+  refine Wp.bind' (Wp.reqByteF (Ext.refl lr)) ?_
+  intro a lr1 ⟨e1, ha, _, _⟩
+  split
+  · exact Wp.pure trivial
+  · rename_i hn48
+    have h48 : lr.v.rest[0]? ≠ some 48 := by rw [← ha]; simpa using hn48
+    refine Wp.bind' (setMark_ok (h.ext e1)) ?_
+    intro _ lr2 ⟨i2, _, p2, r2, l2, s2, k2⟩
+    refine Wp.bind' (uint_ok i2) ?_
+    intro r lr3 ⟨_, f3, s3⟩
+    split
+    · exact Wp.pure trivial
+    · exact exceedsCount_at (by rw [f3.line, l2, e1.line]) (by rw [f3.lineStart, s2, e1.lineStart])
+        (by rw [f3.mark, k2, e1.pos]) h.online.le
+    · rename_i v
+      obtain ⟨_, _, s4⟩ := s3 v rfl
+      have hv0 : v ≠ 0 := s4 (by rw [r2, e1.rest]; exact h48)
+      split
+      · rename_i hz; exact absurd (by simpa using hz) hv0
+      · exact Wp.pure trivial
+
+/-- The same for `nonnegative_int`. -/
+theorem nonnegativeInt_err_at_start (h : Inv b f lr) :
+    Wp (AtCursor lr) nonnegativeInt lr (fun _ _ => True) := by
+  unfold nonnegativeInt
+  refine Wp.bind' (setMark_ok h) ?_
+  intro _ lr2 ⟨i2, _, p2, _, l2, s2, k2⟩
+  refine Wp.bind' (uint_ok i2) ?_
+  intro r lr3 ⟨_, f3, _⟩
+  split
+  · exact Wp.pure trivial
+  · exact exceedsCount_at (by rw [f3.line, l2]) (by rw [f3.lineStart, s2]) (by rw [f3.mark, k2]) h.online.le
+  · exact Wp.pure trivial
 
 /-- `or_give_up(|| unexpected(..))` on a line-level token. -/
 theorem orGiveUp_line {α : Type} {p : PM (Option α)} {P : α → Prop}
@@ -487,13 +538,13 @@ theorem commentBody_ok (h : Inv b f lr) :
     refine Wp.bind (Wp.get ?_)
     simp only [View.checkIoError]
     refine Wp.bind (Wp.set ?_)
-    split
-    · rename_i hio
+    by_cases hio : lr2.v.ioErr = true
+    · simp only [hio, ↓reduceIte]
       refine Wp.bind (Wp.throw ⟨⟨⟨i2.size, i2.rest, i2.pos_le, i2.fault⟩, i2.online⟩, ?_⟩)
       show f = true
       rw [← i2.fault]; exact i2.finv.2 hio
-    · rename_i hio
-      have hio' : lr2.v.ioErr = false := by simpa using hio
+    · have hio' : lr2.v.ioErr = false := by simpa using hio
+      simp only [hio', Bool.false_eq_true, ↓reduceIte]
       refine (Wp.advBuf (ext_clearIoErr e2 hio') h (hle (Nat.zero_le _)) ?_ hnl).mono ?_
       · show lr.v.pos + off ≤ lr2.v.peeked
         omega
